@@ -401,7 +401,18 @@ def embedArgs : Args → XArgs
   | .cons e r => .cons (embed e) (embedArgs r)
 end
 
-def gluedIntPeriodAny (pieces : List Piece) : Bool := gluedIntPeriod pieces
+/-- two `&` printed without a space between them (reference to reference) lex as `&&` -/
+def gluedAmp : List Piece → Bool
+  | .t (.p .Ampersand) _ :: .t (.p .Ampersand) s :: rest => true || gluedAmp (.t (.p .Ampersand) s :: rest)
+  | _ :: rest => gluedAmp rest
+  | [] => false
+
+/-- `*` or `&` of a declarator directly followed by `[`: `parse_declarator_internal` reads an attribute there -/
+def attrShape : List Tok → Bool
+  | .p .Asterix :: .p .LeftSquareBracket :: _ => true
+  | .p .Ampersand :: .p .LeftSquareBracket :: _ => true
+  | _ :: rest => attrShape rest
+  | [] => false
 
 /-- answer of the full model to `C09.rt <ctx> <tree>` -/
 def handleRtFull (ctx : String) (e : XExpr) : String :=
@@ -416,12 +427,28 @@ def handleRtFull (ctx : String) (e : XExpr) : String :=
   | none => "bad-request"
   | some (pieces, term) =>
     let ts := toks pieces
+    if gluedAmp pieces then "unsupported reference to reference" else
+    if attrShape ts then "unsupported attribute position in a declarator" else
     if gluedIntPeriod pieces || ts.any (fun t => match t with | .lit l => litTooLarge l | _ => false)
     then render pieces ++ " ==> ERR:lex" else
     let W := typeNamesX e
-    let back := match xparseAll W term ts with
-      | some (e', []) => (alignS (sexpX e) (sexpX e')).show
-      | _ => "ERR:parse"
+    let shown (e' : XExpr) : String := (alignS (sexpX e) (sexpX e')).show
+    let back :=
+      if ctx == "arg" then
+        -- the wrapper `return g(e);` is read as a whole: the hole is the single argument of `g`
+        match xparseAll W .Standard (toks (fmtExprX (.call (.id "g") .nil (.cons e .nil)))) with
+        | some (.call (.id "g") .nil (.cons e' .nil), []) => shown e'
+        | some (other, []) => "ERR:shape arg " ++ (sexpX other).show
+        | _ => "ERR:parse"
+      else if ctx == "idx" then
+        match xparseAll W .Standard (toks (fmtExprX (.sub (.id "g") e))) with
+        | some (.sub (.id "g") e', []) => shown e'
+        | some (other, []) => "ERR:shape idx " ++ (sexpX other).show
+        | _ => "ERR:parse"
+      else
+        match xparseAll W term ts with
+        | some (e', []) => shown e'
+        | _ => "ERR:parse"
     render pieces ++ " ==> " ++ back
 
 /-- answer of the first model (`Model/Format.lean` + `Model/Parse.lean`), `none` where it does not apply -/
